@@ -19,7 +19,7 @@ RULE = ("endings = {orderly release, close (FIN and RST) after every byte offset
         "resource or held a session instance")
 ASSUMPTIONS = ["'at quiescence' = after the disconnect hook was observed and the worker/selector slot count settled, awaited with a 10 s watchdog (expiry = inconclusive unless a server thread died)",
                "connections whose handshake was refused are only required to see <= 1 hook call and a closed socket"]
-REQUIRED_REACH = ["ending_ok", "offset_endings", "resources_closed_once", "session_instances_dropped", "witness_unaffected", "timeout_endings", "security_endings", "callback_endings", "churn_connections_checked", "injected_yields", "application_hooks_that_raised", "resources_tracked_by_oneway_calls", "slow_hook_cases_ok"]
+REQUIRED_REACH = ["tls_daemon_shards", "server_ended_with_lingering_client", "ending_ok", "offset_endings", "resources_closed_once", "session_instances_dropped", "witness_unaffected", "timeout_endings", "security_endings", "callback_endings", "churn_connections_checked", "injected_yields", "application_hooks_that_raised", "resources_tracked_by_oneway_calls", "slow_hook_cases_ok"]
 SHARD_TIMEOUT = {"quick": 240, "thorough": 3000}
 
 
@@ -49,7 +49,7 @@ class World:
             return self.conns.setdefault(serial, {"tracked": [], "untracked": [], "session": None, "conn": None})
 
 
-def make_env(P, servertype, commtimeout, linger=30.0, pool=(2, 40), variant=None):
+def make_env(P, servertype, commtimeout, linger=30.0, pool=(2, 40), variant=None, ssl=False):
     world = World()
     ctx = P.callcontext.current_context
 
@@ -115,7 +115,7 @@ def make_env(P, servertype, commtimeout, linger=30.0, pool=(2, 40), variant=None
                 e["tracked"].append(self.ctor_res)
             return ctx.client._vserial
 
-    fx = fixture.Fixture(servertype=servertype, COMMTIMEOUT=commtimeout, THREADPOOL_SIZE=pool[1], THREADPOOL_SIZE_MIN=pool[0], ITER_STREAMING=True, ITER_STREAM_LINGER=linger, variant=variant)
+    fx = fixture.Fixture(servertype=servertype, COMMTIMEOUT=commtimeout, THREADPOOL_SIZE=pool[1], THREADPOOL_SIZE_MIN=pool[0], ITER_STREAMING=True, ITER_STREAM_LINGER=linger, variant=variant, ssl=ssl)
     fx.register(Svc(), "svc")
     fx.register(Sess, "sess")
 
@@ -192,6 +192,8 @@ def gen_cases(r, tier, reqlen):
         c["session"] = r.random() < 0.5
         c["witnesses"] = r.choice([1, 1, 2, 3])
         c["streams"] = r.choice([0, 0, 1, 2])
+        if c["ending"] in ("malformed", "security", "callback"):
+            c["client_lingers"] = r.random() < 0.5       # the client neither reads nor closes until the cleanup has been judged
     r.shuffle(cases)
     return cases
 
@@ -251,21 +253,31 @@ def run_case(fx, world, c, rec, r, sername):
                    "garbage": b"\x00\x01garbage" * 9, "oversize": wire.encode(wire.INVOKE, 0, 1, ser.serializer_id, b"x", data_len=0xFFFFFFF0),
                    "annotations": wire.encode(wire.INVOKE, 0, 1, ser.serializer_id, b"xxxxxxxxxxxx", ann_len=5, data_len=7)}[how]
             v.send(bad)
-            v.expect_eof(8.0)
-            v.close()
+            if c.get("client_lingers"):
+                still_open = v       # the daemon ends this connection; its cleanup is due whether or not the client ever reads or closes
+            else:
+                v.expect_eof(8.0)
+                v.close()
         elif e == "security":
             data = ser.dumpsCall("svc", "noop", ({"__class__": "a__b.C"},), {})
             v.send(wire.encode(wire.INVOKE, 0, 3, ser.serializer_id, data))
-            v.expect_eof(8.0)
-            v.close()
+            if c.get("client_lingers"):
+                still_open = v
+            else:
+                v.expect_eof(8.0)
+                v.close()
             rec.count("security_endings")
         elif e == "callback":
-            try:
-                v.invoke("svc", "cb_fail", (), {}, ser)
-            except (EOFError, OSError):
-                pass
-            v.expect_eof(8.0)
-            v.close()
+            if c.get("client_lingers"):
+                v.invoke("svc", "cb_fail", (), {}, ser, read=False)
+                still_open = v
+            else:
+                try:
+                    v.invoke("svc", "cb_fail", (), {}, ser)
+                except (EOFError, OSError):
+                    pass
+                v.expect_eof(8.0)
+                v.close()
             rec.count("callback_endings")
         elif e == "timeout":
             v.send(req[:c["offset"]])
@@ -372,8 +384,12 @@ def run_case(fx, world, c, rec, r, sername):
         rec.count("ending_ok")
         rec.count("resources_closed_once", len(ent["tracked"]))
     if still_open is not None:
-        if not bad and still_open.expect_eof(5.0) is not True:
-            rec.violation("timed-out-connection-not-ended-for-client", "connection %d was timed out by the server, but its client saw no end of stream within 5 s" % serial, pay)
+        if e != "timeout":
+            rec.count("server_ended_with_lingering_client")
+        # (an error reply may come first: security error, failing callback method)
+        if not bad and (still_open.expect_eof(5.0) if e == "timeout" else still_open.drain_eof(5.0)) is not True:
+            rec.violation("timed-out-connection-not-ended-for-client" if e == "timeout" else "server-ended-connection-not-ended-for-client",
+                          "connection %d was ended by the server (%s), but its client saw no end of stream within 5 s" % (serial, describe(c)), pay)
         still_open.close()
     # witnesses end orderly: same accounting
     for w, ws in witnesses:
@@ -569,6 +585,9 @@ def plan(tier, seed):
             for rep in range(1 if tier == "quick" else 4):
                 shards.append({"servertype": st, "serializer": sername, "kind": "main", "rep": rep, "linger": 0.0 if (rep + len(sername)) % 2 else 30.0})
         shards.append({"servertype": st, "serializer": "serpent", "kind": "timeout"})
+        # the same endings against a daemon that speaks TLS (config.SSL): the server-side socket is an ssl object
+        for rep in range(1 if tier == "quick" else 3):
+            shards.append({"servertype": st, "serializer": fixture.SERIALIZERS[(rep + len(st)) % 4], "kind": "main", "rep": 100 + rep, "linger": 0.0, "ssl": True})
         for rep in range(1 if tier == "quick" else 6):
             shards.append({"servertype": st, "serializer": "marshal", "kind": "churn", "rep": rep, "histories": 40 if tier == "quick" else 400})
     return shards
@@ -615,12 +634,17 @@ def run_shard(shard, rec):
             yieldinj.disable()
             fx.stop()
         return
-    fx, world = make_env(P, shard["servertype"], 0.0, shard.get("linger", 30.0), variant=fixture.variant_for(rec.seed, "c13", repr(sorted(shard.items()))))
+    fx, world = make_env(P, shard["servertype"], 0.0, shard.get("linger", 30.0), variant=fixture.variant_for(rec.seed, "c13", repr(sorted(shard.items()))), ssl=shard.get("ssl", False))
     rec.count("fixture_variant:" + fx.variant)
+    if shard.get("ssl"):
+        rec.count("tls_daemon_shards")
     try:
         ser = P.serializers.serializers[sername]
         reqlen = len(wire.encode(wire.INVOKE, 0, 9, ser.serializer_id, ser.dumpsCall("svc", "noop", ("p" * 30,), {})))
-        for c in gen_cases(r, rec.tier, reqlen):
+        cases = gen_cases(r, rec.tier, reqlen)
+        if shard.get("ssl") and rec.tier == "quick":
+            cases = [c for i, c in enumerate(cases) if i % 3 == 0 or c["ending"] != "offset"]      # (TLS handshakes are slow: a third of the byte offsets)
+        for c in cases:
             if rec.should_stop():
                 break
             run_case(fx, world, c, rec, r, sername)
